@@ -169,6 +169,9 @@ fn diff_hint(src: &Dump, dst: &Dump) -> String {
                 if w == Some(v) || (pv_text(v) == w.map(pv_text).unwrap_or_default()) {
                     continue;
                 }
+                if src.clash_keys[i].contains(k) {
+                    return "row-column-clash".into();
+                }
                 return value_diff_class(v);
             }
             return "node-props-extra".into();
